@@ -3,6 +3,7 @@ CONSTANTS
   Shapes <- ModelShapes
   Decoder = "stateful"
   Cache = "stale"
+  Limit = 0
 INVARIANTS TypeOK PrefixOK CompleteOK Quiescent
 PROPERTIES AppendOnly
 VIEW View
